@@ -1,11 +1,12 @@
 #!/bin/sh
-# seedbatch.sh Cxx [tier] : confirm + evaluate m1..m3 of one property with its own check
-P=$1; T=${2:-quick}
-for k in 1 2 3 4 5; do
-  d=/tmp/seed-out/$P/m$k
+# seedbatch.sh Cxx [tier] [srcdir] [wtdir] : confirm + evaluate the seeded
+# changes of one property with its own check
+P=$1; T=${2:-quick}; SRC=${3:-/tmp/seed-out}; WT=${4:-/tmp/wt}
+for k in 1 2 3 4 5 6 7 8 9; do
+  d=$SRC/$P/m$k
   [ -f $d/patch.diff ] || continue
   if [ ! -f /verif/seeded/$P-m$k/meta.json ]; then
-    python3 /verif/tools/seed.py confirm $d $P-m$k $P /tmp/wt/$P > /tmp/seed-out/$P/confirm-m$k.log 2>&1 || { echo "$P-m$k NOT CONFIRMED (see /tmp/seed-out/$P/confirm-m$k.log)"; continue; }
+    python3 /verif/tools/seed.py confirm $d $P-m$k $P $WT/$P > $SRC/$P/confirm-m$k.log 2>&1 || { echo "$P-m$k NOT CONFIRMED (see $SRC/$P/confirm-m$k.log)"; continue; }
   fi
-  python3 /verif/tools/seed.py eval $P-m$k /tmp/wt/$P $T $P
+  python3 /verif/tools/seed.py eval $P-m$k $WT/$P $T $P
 done
